@@ -462,6 +462,30 @@ def case(item):
                       if (bs - 1 - (6 + info.maclen) % bs) > 0 else bs +
                       (bs - 1 - (6 + info.maclen) % bs),
                       pad_bytes=None) if False else None
+            if info.mode == "CBC":
+                # correctly keyed and correctly padded CBC ciphertext that
+                # carries no MAC at all, one to three blocks long (shorter
+                # than, equal to and longer than some MAC lengths): whatever
+                # the length arithmetic of the receiver, nothing the peer
+                # never authenticated may come out
+                for nblk in (1, 2, 3, 4):
+                    for padlen in sorted(set([0, bs - 1, bs // 2])):
+                        rcf = copy.deepcopy(rc0)
+                        dd = rcf.d[direction]
+                        content = b"Z" * (nblk * bs - padlen - 1)
+                        ptxt = content + bytes([padlen]) * (padlen + 1)
+                        if v >= (3, 2):
+                            iv = bytes((i * 5 + 3) & 0xff for i in range(bs))
+                        else:
+                            iv = dd.iv
+                        ct = refrecord.R.cbc_encrypt(dd.cipher, iv, ptxt)
+                        body = (iv + ct) if v >= (3, 2) else ct
+                        fr = bytes([23, v[0], v[1]]) + struct.pack(
+                            ">H", len(body)) + body
+                        run_fault("cbc-keyed-without-mac",
+                                  {"fault": "cbc-keyed-without-mac",
+                                   "blocks": nblk, "pad": padlen},
+                                  [fr] + R, 0)
             if info.mode == "CBC" and not (etm and v > (3, 0)) and \
                     v > (3, 0):
                 # MAC-then-encrypt with long (legal) padding: a wrong MAC
